@@ -25,6 +25,9 @@ type StreamObj struct {
 	pos    int     // 2*i = at the start of message i, 2*i+1 = inside message i
 	closed bool
 	cuts   int
+	// blocking: one direction of an in-process connection (verifapi.NewPipe): a read with nothing
+	// pending waits for a write or Close; one message per read (read-ahead is the loop-back stream's subject)
+	blocking bool
 }
 
 func (s *StreamObj) implements(it *types.Interface) bool { return true }
@@ -33,6 +36,17 @@ func (s *StreamObj) invoke(m *Machine, g *Goroutine, method string, args []Value
 	case "Close":
 		s.closed = true
 		return IfaceVal{}, stNext
+	case "Write":
+		// a whole encoded value handed over in one Write (what json.Encoder does)
+		if s.closed {
+			return TupleVal{mkInt(0), m.newErrorValue("io: read/write on closed pipe")}, stNext
+		}
+		bl := blobOf(args[0])
+		if bl == nil || bl.kind != "json" {
+			panic(abortf("stream Write of something that is not one encoded JSON value: %s", describe(args[0])))
+		}
+		s.msgs = append(s.msgs, bl.v)
+		return TupleVal{m.blobLen(bl), IfaceVal{}}, stNext
 	}
 	panic(abortf("stream method %s called directly (only json.Encoder/Decoder are modelled on it)", method))
 }
@@ -71,6 +85,10 @@ func init() {
 		m.nextID++
 		return IfaceVal{typ: m.ld.ctxMarker, v: &StreamObj{id: m.nextID}}
 	})
+	regV(apiPkg+".NewPipe", func(m *Machine, g *Goroutine, a []Value) Value {
+		m.nextID++
+		return IfaceVal{typ: m.ld.ctxMarker, v: &StreamObj{id: m.nextID, blocking: true}}
+	})
 	regV("encoding/json.NewEncoder", func(m *Machine, g *Goroutine, a []Value) Value {
 		return m.nativePtr(&jsonEncoder{w: a[0]}, "jsonenc")
 	})
@@ -86,7 +104,35 @@ func init() {
 	regV("encoding/json.NewDecoder", func(m *Machine, g *Goroutine, a []Value) Value {
 		return m.nativePtr(&jsonDecoder{r: a[0]}, "jsondec")
 	})
-	regV("(*encoding/json.Decoder).Decode", func(m *Machine, g *Goroutine, a []Value) Value {
+	reg("(*encoding/json.Decoder).Decode", func(m *Machine, g *Goroutine, c *callCtx) (Value, stepStatus) {
+		a := c.args
+		d := m.nativeOf(a[0], "json.Decode").(*jsonDecoder)
+		if s := streamOf(d.r); s != nil && s.blocking {
+			if !g.atSched && m.maybePreempt(g) {
+				return nil, stBlocked
+			}
+			if m.race.on {
+				m.raceObj(a[0].(PtrVal).obj, nil, true)
+			}
+			if s.pos >= 2*len(s.msgs) {
+				if s.closed {
+					g.waitFn = nil
+					return m.newErrorValue("EOF"), stNext
+				}
+				g.waitFn = func() bool { return s.pos < 2*len(s.msgs) || s.closed }
+				return nil, stBlocked
+			}
+			g.waitFn = nil
+			i := s.pos / 2
+			s.pos += 2
+			return m.jsonStoreInto(s.msgs[i], a[1]), stNext
+		}
+		return streamDecode(m, g, a), stNext
+	})
+}
+
+func streamDecode(m *Machine, g *Goroutine, a []Value) Value {
+	{
 		d := m.nativeOf(a[0], "json.Decode").(*jsonDecoder)
 		if m.race.on {
 			m.raceObj(a[0].(PtrVal).obj, nil, true) // a json.Decoder is not safe for concurrent use
@@ -136,8 +182,10 @@ func init() {
 			}
 			s.pos = q
 		}
-	})
+	}
+}
 
+func init() {
 	// ---- gorilla websocket connection as a frame transport ----
 	regV(repoMod+"/jsonrpc2/ws/gorilla.verifConn", func(m *Machine, g *Goroutine, a []Value) Value {
 		m.nextID++
